@@ -71,6 +71,15 @@ def build(race=False, tag=""):
     if os.path.exists(out):
         return out
     cmd = [go, "test", "-c", "-tags", "verif", "-o", out]
+    alt = os.environ.get("VERIF_REPO")
+    if alt:
+        # sensitivity runs only: build against a scratch copy of the library
+        # (a mutated worktree) instead of /repo. Registered commands never set this.
+        modfile = os.path.join(outdir, "alt.mod")
+        mod = open(os.path.join(HARNESS, "go.mod")).read().replace("=> /repo", "=> " + os.path.abspath(alt))
+        open(modfile, "w").write(mod)
+        shutil.copy(os.path.join(HARNESS, "go.sum"), os.path.join(outdir, "alt.sum"))
+        cmd.append("-modfile=" + modfile)
     if race:
         cmd.append("-race")
     cmd.append("./checks")
